@@ -17,7 +17,7 @@ Correspondence, every run:
      type-checked) vs the Coq model has_side_effect.
  (4) fixed witnesses of the recorded defects, compared with native Go on every run.
 """
-import json, os, re, sys
+import json, os, re, shutil, sys
 import common as C
 import c05_gen
 
@@ -49,6 +49,18 @@ def henv():
     e = C.goenv()
     e["VERIF_REPO_DIR"] = C.REPO
     return e
+
+
+def wdir(ctx):
+    """private scratch directory: ctx.work is wiped by every NEW run of the same check, so a second `./check C05` started
+    against the same tree while this one runs would pull the files from under it"""
+    d = getattr(ctx, "_c05_dir", None)
+    if d is None:
+        d = ctx.work.rstrip("/") + ".%d" % os.getpid()
+        shutil.rmtree(d, ignore_errors=True)
+        os.makedirs(d, exist_ok=True)
+        ctx._c05_dir = d
+    return d
 
 
 def prepare(ctx):
@@ -112,7 +124,7 @@ def eval_model(ctx, vcases, shard=300, tag="g"):
     shards = [vcases[i:i + shard] for i in range(0, len(vcases), shard)]
 
     def run_shard(k):
-        p = os.path.join(ctx.work, "cases_%s_%d.v" % (tag, k))
+        p = os.path.join(wdir(ctx), "cases_%s_%d.v" % (tag, k))
         with open(p, "w") as f:
             f.write("From Coq Require Import List String NArith.\nFrom Verif Require Import Model.C05_Select Corr.C05_Eval.\n"
                     "Import ListNotations.\nLocal Open Scope string_scope.\nLocal Open Scope N_scope.\nLocal Open Scope list_scope.\n")
@@ -137,7 +149,8 @@ def drop_timeouts(ctx, errs):
     """a Coq evaluation that timed out / was killed is an infrastructure failure: note it, never a violation"""
     keep = []
     for e in errs:
-        if "[timeout" in e or "Killed" in e or "Out of memory" in e or e.strip() == "":
+        if "[timeout" in e or "Killed" in e or "Out of memory" in e or e.strip() == "" or "No such file" in e or "Can't find file" in e \
+                or "cannot open" in e.lower():
             ctx.notes.append("a model evaluation shard was skipped (infrastructure): " + e.strip()[-120:])
         else:
             keep.append(e)
@@ -388,18 +401,23 @@ def build_and_check(ctx, d, files, native):
     rc, out, err = C.sh2([HARNESS(), "link", "o"], cwd=d, env=henv(), timeout=600)
     if rc == 124:
         return dict(stage="infra", log="compile+link timed out")
+    if rc != 0 and (not os.path.exists(os.path.join(d, "main.go")) or not os.path.isdir(os.path.join(d, "o"))):
+        return dict(stage="infra", log="scratch directory disappeared during the build")
     if rc != 0:
         return dict(stage="link", log=(out + err)[-1500:])
-    js = open(os.path.join(d, "o", "out.js")).read()
-    dump = json.load(open(os.path.join(d, "o", "decls.json")))
+    try:
+        js = open(os.path.join(d, "o", "out.js")).read()
+        dump = json.load(open(os.path.join(d, "o", "decls.json")))
+    except (OSError, ValueError) as e:
+        return dict(stage="infra", log="output of the link harness unreadable: %r" % e)
     n, a = run_both(d)
     if n[0] == 124 or a[0] == 124:
         return dict(stage="infra", log="node run timed out twice")
     res = dict(stage="done", normal=obs(n), all_alive=obs(a), static=static_check(js, dump), dump=dump)
     if native:
         rc, log = C.sh(["go", "build", "-o", "prog", "."], cwd=d, env=C.goenv(), timeout=600)
-        if rc == 124:
-            res["native_skipped"] = "native go build timed out"
+        if rc == 124 or (rc != 0 and ("no such file or directory" in log or not os.path.exists(os.path.join(d, "main.go")))):
+            res["native_skipped"] = "native go build timed out / scratch directory disappeared"
         elif rc != 0:
             res["native"] = dict(rc=-1, text="go build failed: " + log[-800:], jserror=None)
         else:
@@ -432,7 +450,7 @@ def programs(ctx):
     def one(i):
         files, meta = progs[i]
         try:
-            return build_and_check(ctx, os.path.join(ctx.work, "p%d" % i), files, native=(i % native_every == 0))
+            return build_and_check(ctx, os.path.join(wdir(ctx), "p%d" % i), files, native=(i % native_every == 0))
         except Exception as e:        # noqa
             return dict(stage="infra", log="harness driver raised " + repr(e))
 
@@ -538,7 +556,7 @@ func main() { println(int(dbl(num(4)))) }
 
 def witnesses(ctx):
     # F10: an initialiser that panics without a call or receive is dropped
-    d = os.path.join(ctx.work, "w_init")
+    d = os.path.join(wdir(ctx), "w_init")
     res = build_and_check(ctx, d, {"main.go": WITNESS_PANICKING_INIT}, native=True)
     ctx.count(["witness", WITNESS_PANICKING_INIT], nontrivial=True)
     if res["stage"] == "infra" or "native" not in res:
@@ -554,7 +572,7 @@ def witnesses(ctx):
                           "panics (exit %d), the normally linked program runs main (exit 0)" % (nat["rc"], al["rc"]),
                           dict(kind="program", files={"main.go": WITNESS_PANICKING_INIT}, normal=nrm, all_alive=al, native=nat))
     # F15 (fixed in /repo by de84ca0, kept as a regression witness): a call through a value of a named func type is a side effect
-    d = os.path.join(ctx.work, "w_namedfunc")
+    d = os.path.join(wdir(ctx), "w_namedfunc")
     res = build_and_check(ctx, d, {"main.go": WITNESS_NAMED_FUNC}, native=True)
     ctx.count(["witness", WITNESS_NAMED_FUNC], nontrivial=True)
     if res["stage"] == "infra" or "native" not in res:
@@ -573,7 +591,7 @@ def witnesses(ctx):
             ctx.violation("dce-changes-behaviour", "named-func-type witness behaves in an unexpected way",
                           dict(kind="program", files={"main.go": WITNESS_NAMED_FUNC}, normal=nrm, all_alive=al, native=nat))
     # F14: self-referential inline constraint -> unbounded recursion in dce.filterGen
-    d = os.path.join(ctx.work, "w_selfref")
+    d = os.path.join(wdir(ctx), "w_selfref")
     C.write_go_program(d, {"main.go": WITNESS_SELFREF_CONSTRAINT})
     ctx.count(["witness", WITNESS_SELFREF_CONSTRAINT], nontrivial=True)
     rc, log = C.gopherjs_build(d, timeout=600)
@@ -628,7 +646,7 @@ def side_effects(ctx):
     shards = [lines[i:i + shard] for i in range(0, len(lines), shard)]
 
     def run_shard(k):
-        p = os.path.join(ctx.work, "cases_e_%d.v" % k)
+        p = os.path.join(wdir(ctx), "cases_e_%d.v" % k)
         with open(p, "w") as f:
             f.write("From Coq Require Import List Bool NArith.\nFrom Verif Require Import Model.C05_SideEffect Corr.C05_Eval.\nImport ListNotations.\n")
             f.write("Definition cases : list (expr * bool) := [\n" + ";\n".join(shards[k]) + "].\n")
@@ -655,6 +673,16 @@ def side_effects(ctx):
 
 
 def correspond(ctx):
+    try:
+        correspond_(ctx)
+    finally:
+        d = getattr(ctx, "_c05_dir", None)
+        if d:
+            shutil.rmtree(d, ignore_errors=True)
+
+
+def correspond_(ctx):
+    wdir(ctx)          # create it in the main thread
     stages = os.environ.get("VERIF_C05_STAGES", "graphs,exprs,witnesses,programs").split(",")   # development knob only
     if "graphs" in stages:
         graphs(ctx); ctx.log("graphs done")
@@ -674,7 +702,7 @@ def replay(ctx, data):
         print("recorded impl:", json.dumps(rp.get("impl")))
         print("least fixed point (spec):", lfp([rp["graph"]["decls"][i] for i in rp["graph"]["order"]]))
     elif rp.get("kind") == "program":
-        d = os.path.join(ctx.work, "replay")
+        d = os.path.join(wdir(ctx), "replay")
         res = build_and_check(ctx, d, rp["files"], native=True)
         res.pop("dump", None)
         print(json.dumps(res, indent=1))
